@@ -331,7 +331,7 @@ class GridSpec:
         """
         R = 6_378_137
         pi = math.pi
-        tsz = pi * R * (2.0 ** (1 - zoom))  # in meters
+        tsz = pi * R * (2.0 ** (1 - int(zoom)))  # in meters
         x, y = -pi * R, pi * R  # top-left corner of tile 0,0
         tile0 = geom.box(x, y - tsz, x + tsz, y, "epsg:3857")
         shape = (npix, npix)
